@@ -41,6 +41,8 @@ ASSUMPTIONS = [
     "comment lines of the writer are 'c' alone or begin with 'c ' (the mechanism named in the property); with export_header=False and export_varnames=False (-q, to_dimacs()) the output has no comment line",
     "the true variable/clause counts of a written formula are number_of_variables() and the clause list observed through the public API immediately before writing",
     "text files are UTF-8; text that cannot be encoded (lone surrogates) is only fed through StringIO",
+    "a file given by name whose bytes are not valid UTF-8 may be refused (even when the damage is inside a comment) or read through any strict decoder of a usual encoding (utf-8, utf-8-sig, latin-1, cp1252, ascii, the locale's; utf-16/32 with BOM); a reading that no strict decoding of the bytes supports is a misreading. A handle opened by the caller carries the caller's choice of encoding and error handler: the reference reading is the one of the text that handle delivers (errors='ignore' chosen by the caller may glue digits - that is then the text)",
+    "cnfshuffle -q -p -v -c (no polarity flips, no permutations) returns the formula it read",
     "the cnfgen tool is run in-process (cli()), stdout captured; CLIError is the tool-level form of the reader's ValueError",
     "transformation chains contain at most one substitution of arity 2, so sizes are bounded by construction",
 ]
@@ -1002,6 +1004,8 @@ def _read_with_tree(text, mode):
 
 
 def run_reader(case):
+    if 'data' in case:
+        return run_reader_bytes(case)
     text, mode = case['text'], case['mode']
     verdict = rd.classify(text)
     got, exc, mode = _read_with_tree(text, mode)
@@ -1319,12 +1323,511 @@ def enum_reader_big(tier):
             yield {'big': spec, 'mode': BIG_MODES[i % nm]}
 
 
+# ---- (b'') the reader at the level of bytes: files that are not (clean) UTF-8 text
+#
+# A case is {'data': <the bytes of the file, one character U+0000..U+00FF per byte>, 'bmode': ..., 'origin': [...]}.
+#   bmode 'name-lib' | 'name-cnfgen' | 'name-shuffle'  the file is given BY NAME to CNF.from_file(name),
+#         cli(['cnfgen','-q','dimacs',name], mode='formula'), cnfshuffle's cli([... '-p','-v','-c','-i',name], 'formula')
+#   bmode 'name-cnfgen-main' | 'name-shuffle-main'     the same through main() (exit status, stdout, stderr)
+#   bmode 'handle'  + 'h': [encoding, errors, newline, via]: the CALLER opens the file; via from_file | parse |
+#         stdin-lib | stdin-cnfgen | stdin-shuffle (the handle stands in for sys.stdin)
+#   bmode 'proc'    + 'proc': [tool, env]: the real program in a process of its own; env utf8 | ascii (the file
+#         by name under a UTF-8 / an ASCII locale), stdin-latin1 | stdin-utf8 (the bytes on the standard input,
+#         PYTHONIOENCODING chosen by the caller)
+
+BYTE_JUNK = [
+    # (name, bytes, class)
+    ('ff', b'\xff', 'invalid'), ('fe', b'\xfe', 'invalid'), ('80', b'\x80', 'invalid'), ('9f', b'\x9f', 'invalid'),
+    ('bf', b'\xbf', 'invalid'), ('a0', b'\xa0', 'invalid'), ('85', b'\x85', 'invalid'), ('b2', b'\xb2', 'invalid'),
+    ('c0', b'\xc0', 'invalid'), ('c3', b'\xc3', 'invalid'), ('e9', b'\xe9', 'latin1'), ('e4f6fc', b'\xe4\xf6\xfc', 'latin1'),
+    ('d1', b'\xd1', 'latin1'), ('trunc3', b'\xe2\x82', 'invalid'), ('trunc4', b'\xf0\x9f\x98', 'invalid'),
+    ('trunc3-1', b'\xe6', 'invalid'), ('surrogate', b'\xed\xa0\x80', 'invalid'), ('overlong', b'\xc0\xaf', 'invalid'),
+    ('overlong-nul', b'\xc0\x80', 'invalid'), ('5byte', b'\xf8\x88\x80\x80\x80', 'invalid'),
+    ('beyond', b'\xf4\x90\x80\x80', 'invalid'), ('bom16le', b'\xff\xfe', 'bom'), ('bom16be', b'\xfe\xff', 'bom'),
+    ('bom8', b'\xef\xbb\xbf', 'bom'), ('nul', b'\x00', 'nul'), ('nuls', b'\x00\x00\x00', 'nul'),
+    ('e-acute', 'é'.encode('utf-8'), 'valid'), ('nbsp', '\xa0'.encode('utf-8'), 'valid'),
+    ('nel', '\x85'.encode('utf-8'), 'valid'), ('zwsp', '\u200b'.encode('utf-8'), 'valid'),
+    ('fullwidth-1', '\uff11'.encode('utf-8'), 'valid'), ('arabic-3', '\u0663'.encode('utf-8'), 'valid'),
+    ('linesep', '\u2028'.encode('utf-8'), 'valid'), ('emoji', '\U0001f600'.encode('utf-8'), 'valid'),
+    ('del', b'\x7f', 'valid'), ('esc', b'\x1b', 'valid'),
+]
+BYTE_JUNK_BY_NAME = {j[0]: j for j in BYTE_JUNK}
+BYTE_POS = ['start', 'comment-mid', 'comment-head', 'comment-front', 'comment-end', 'p-front', 'p-word', 'p-n', 'p-gap',
+            'p-m', 'p-end', 'lit-digits', 'lit-sign', 'lit-front', 'lit-back', 'gap', 'alone', 'zero-front', 'zero-back',
+            'eol', 'eof', 'eof-nonl']
+BYTE_POS_HARMLESS = ('comment-mid', 'comment-head', 'comment-end')
+HANDLE_CODECS = [['utf-8', 'strict'], ['latin-1', 'strict'], ['ascii', 'surrogateescape'], ['utf-8', 'surrogateescape'],
+                 ['utf-8', 'ignore'], ['utf-8', 'replace'], ['ascii', 'ignore'], ['ascii', 'replace'],
+                 ['utf-8-sig', 'strict'], ['cp1252', 'strict'], ['ascii', 'strict'], ['utf-8', 'backslashreplace'],
+                 ['utf-16', 'strict'], ['latin-1', 'ignore']]
+HANDLE_VIAS = ['from_file', 'from_file', 'from_file', 'parse', 'parse', 'stdin-lib', 'stdin-cnfgen', 'stdin-shuffle']
+HANDLE_NEWLINES = [None, None, '', '\n']
+NAME_BMODES = ['name-lib', 'name-cnfgen', 'name-shuffle', 'name-cnfgen-main', 'name-shuffle-main']
+NAME_CODECS = ['utf-8', 'utf-8-sig', 'latin-1', 'cp1252', 'ascii']
+PROC_ENVS = {
+    'utf8': {'LC_ALL': 'C.UTF-8', 'LANG': 'C.UTF-8', 'PYTHONUTF8': '0'},
+    'ascii': {'LC_ALL': 'C', 'LANG': 'C', 'PYTHONUTF8': '0', 'PYTHONCOERCECLOCALE': '0'},
+    'stdin-latin1': {'PYTHONIOENCODING': 'latin-1'},
+    'stdin-utf8': {'PYTHONIOENCODING': 'utf-8'},
+}
+SHUFFLE_FIXED = ['-q', '-p', '-v', '-c']       # no flips, no permutations: the tool hands back what it read
+
+
+def _byte_base(n, clauses, head=(), mid=None, tail=None, eol=b'\n'):
+    """The bytes of a well formed document: comment lines, problem line, one clause per line."""
+    lines = [c for c in head]
+    lines.append('p cnf {} {}'.format(n, len(clauses)).encode('ascii'))
+    for i, c in enumerate(clauses):
+        if mid is not None and i == len(clauses) // 2:
+            lines.append(mid)
+        lines.append(' '.join(str(l) for l in list(c) + [0]).encode('ascii'))
+    if tail is not None:
+        lines.append(tail)
+    return eol.join(lines) + eol
+
+
+def _byte_positions(base):
+    """kind -> list of (start, end, left, right): base[start:end] is replaced by left + junk + right"""
+    pos = {k: [] for k in BYTE_POS}
+    pos['start'].append((0, 0, b'', b''))
+    off = 0
+    seen_p = False
+    lines = base.split(b'\n')
+    nlines = len(lines) - 1 if lines[-1] == b'' else len(lines)
+    for li, ln in enumerate(lines[:nlines]):
+        end = off + len(ln.rstrip(b'\r'))
+        if ln[:1] == b'c':
+            pos['comment-front'].append((off, off, b'', b''))
+            pos['comment-head'].append((off + 1, off + 1, b'', b''))
+            pos['comment-mid'].append((min(end, off + 3), min(end, off + 3), b'', b''))
+            pos['comment-end'].append((end, end, b'', b''))
+        elif ln[:1] == b'p':
+            seen_p = True
+            f = ln.rstrip(b'\r').split(b' ')           # p cnf n m
+            o_n = off + len(f[0]) + 1 + len(f[1]) + 1
+            o_m = o_n + len(f[2]) + 1
+            pos['p-front'].append((off, off, b'', b''))
+            pos['p-word'].append((off + 3, off + 3, b'', b''))
+            pos['p-n'].append((o_n + 1, o_n + 1, b'', b'') if len(f[2]) > 1 else (o_n, o_n, b'', b''))
+            pos['p-gap'].append((o_m - 1, o_m, b'', b''))
+            pos['p-m'].append((o_m + len(f[3]) - 1, o_m + len(f[3]) - 1, b'', b'') if len(f[3]) > 1 else (o_m, o_m, b'', b''))
+            pos['p-end'].append((end, end, b'', b''))
+        elif seen_p:
+            o = off
+            toks = ln.rstrip(b'\r').split(b' ')
+            for ti, t in enumerate(toks):
+                if t != b'0':
+                    digits = t.lstrip(b'-')
+                    d0 = o + len(t) - len(digits)
+                    if len(digits) > 1:
+                        pos['lit-digits'].append((d0 + 1, d0 + 1, b'', b''))
+                    if t[:1] == b'-':
+                        pos['lit-sign'].append((o + 1, o + 1, b'', b''))
+                    pos['lit-front'].append((o, o, b'', b''))
+                    pos['lit-back'].append((o + len(t), o + len(t), b'', b''))
+                else:
+                    pos['zero-front'].append((o, o, b'', b''))
+                    pos['zero-back'].append((o + 1, o + 1, b'', b''))
+                if ti + 1 < len(toks):
+                    pos['gap'].append((o + len(t), o + len(t) + 1, b'', b''))
+                    pos['alone'].append((o + len(t), o + len(t) + 1, b' ', b' '))
+                o += len(t) + 1
+            if li + 1 < nlines:
+                pos['eol'].append((off + len(ln), off + len(ln) + 1, b'', b''))
+        off += len(ln) + 1
+    pos['eof'].append((len(base), len(base), b'', b''))
+    if base.endswith(b'\n'):
+        pos['eof-nonl'].append((len(base) - 1, len(base), b'', b''))
+    return pos
+
+
+def _byte_inject(base, edits):
+    """edits: [[position kind, index, junk name], ...] applied to the base from the back to the front"""
+    pos = _byte_positions(base)
+    todo = []
+    for kind, idx, junk in edits:
+        where = pos[kind]
+        if where:
+            s, e, left, right = where[idx % len(where)]
+            todo.append((s, e, left + BYTE_JUNK_BY_NAME[junk][1] + right))
+    data = base
+    for s, e, rep in sorted(todo, reverse=True):
+        data = data[:s] + rep + data[e:]
+    return data
+
+
+def _strict_decodings(data, more=()):
+    """text -> [codecs]: what the strict decoders of the usual encodings make of the bytes"""
+    import codecs
+    import locale
+    names = list(NAME_CODECS) + list(more)
+    names.append(codecs.lookup(locale.getpreferredencoding(False)).name)
+    if data[:2] in (b'\xff\xfe', b'\xfe\xff'):
+        names.append('utf-16')
+    if data[:4] in (b'\xff\xfe\x00\x00', b'\x00\x00\xfe\xff'):
+        names.append('utf-32')
+    out = {}
+    for c in names:
+        try:
+            t = data.decode(c)
+        except UnicodeError:
+            continue
+        if c not in out.setdefault(t, []):
+            out[t].append(c)
+    return out
+
+
+def _stream_decode(data, enc, errors):
+    """The text a stream with this encoding and error handler delivers (None: it raises) - by the codec's
+    incremental decoder, which is what a text stream uses (utf-16 without byte order mark is refused there)."""
+    import codecs
+    try:
+        return codecs.getincrementaldecoder(enc)(errors).decode(data, True)
+    except UnicodeError:
+        return None
+
+
+def _drop_sensitive(data):
+    """Would a decoder that DROPS what it cannot decode (or NULs, or a BOM) turn the file into a well formed
+    document although no strict decoding of it is one?  Such files expose a reader that glues digits."""
+    texts = {data.decode('utf-8', 'ignore'), data.decode('ascii', 'ignore')}
+    texts |= {t.replace('\x00', '').replace('\ufeff', '') for t in list(texts)}
+    return any(rd.interpret(t, **rd.STRICT).ok for t in texts)
+
+
+def _key(got):
+    return (got[0], tuple(tuple(c) for c in got[1]))
+
+
+def _judge_by_name(data, got, exc, required, what):
+    """A file given by name: the reader chooses the decoding.  Whatever it chooses, it either refuses the file or
+    returns the reference reading of the text that a STRICT decoder of a usual encoding makes of the bytes.
+    `required`: the codec the entry point is known to use (a valid document in it may not be refused)."""
+    decs = _strict_decodings(data)
+    verdicts = {t: rd.classify(t) for t in decs}
+    labels = []
+    if exc is None:
+        labels.append('bytes-returned')
+        key = _key(got)
+        if not any(v.cls != 'reject' and key in v.allowed for v in verdicts.values()):
+            seen = ['{}: {}'.format('/'.join(cs), verdicts[t].strict if verdicts[t].cls != 'gray' else
+                                    'gray {}'.format(verdicts[t].lenient[:2])) for t, cs in decs.items()]
+            undec = [c for c in NAME_CODECS if not any(c in cs for cs in decs.values())]
+            raise Violation("{}: returned {} variables and clauses {} - no strict decoding of the bytes reads so "
+                            "({}{}); bytes={!r}".format(what, got[0], got[1][:12], '; '.join(seen)[:700],
+                                                        '; not decodable as ' + '/'.join(undec) if undec else '',
+                                                        data[:300]))
+    else:
+        labels.append('bytes-refused')
+        try:
+            t = data.decode(required) if required else None
+        except UnicodeError:
+            t = None
+        if t is not None and verdicts.get(t, rd.classify(t)).cls == 'accept':
+            raise Violation("{}: a file that is valid DIMACS text in {} is refused ({}: {}); the text says {}; bytes={!r}".format(
+                what, required, type(exc).__name__, str(exc)[:120], rd.classify(t).strict, data[:300]))
+    try:
+        data.decode('utf-8')
+        labels.append('bytes-utf8-valid')
+    except UnicodeError:
+        labels.append('bytes-utf8-invalid')
+        if any(v.cls == 'accept' for v in verdicts.values()):
+            labels.append('bytes-invalid-but-harmless')
+    if all(v.cls == 'reject' for v in verdicts.values()) and _drop_sensitive(data):
+        labels.append('bytes-drop-sensitive')        # must be refused; a reader that drops bytes would accept it
+    return labels
+
+
+def _judge_text(text, got, exc, what, data):
+    """The caller decoded the bytes: the reference reading is that of the decoded text."""
+    label, msg = rd.judge(text, got, exc is not None)
+    if msg is not None:
+        raise Violation("{}: {}; decoded text={!r}; bytes={!r}".format(what, msg, text[:300], data[:300]))
+    return ['bytes-text-' + label.split('-')[0], 'bytes-returned' if exc is None else 'bytes-refused']
+
+
+def _tool_formula(tool, args, stdin=None):
+    """cli(argv, mode='formula') of a tool, in-process -> ((n, clauses), None) | (None, CLIError/ValueError)"""
+    from cnfgen.clitools.cmdline import CLIError
+    from vlib import cli as vcli
+    mod = vcli._module(tool)
+    _reset_cli_state()
+    old = (sys.stdout, sys.stderr, sys.stdin)
+    sys.stdout, sys.stderr = _Buf(), _Buf()
+    sys.stdin = stdin if stdin is not None else io.StringIO('')
+    try:
+        F = mod.cli([tool] + [str(a) for a in args], mode='formula')
+        return _snapshot(F), None
+    except (CLIError, ValueError) as e:
+        return None, e
+    finally:
+        sys.stdout, sys.stderr, sys.stdin = old
+        _reset_cli_state()
+        gc.collect()            # the handles argparse opened are never closed by the tools
+
+
+def _stdout_reading(out, code, err, what, data):
+    """What a finished program says: ((n, clauses), None) on exit 0 with a DIMACS document, (None, refusal) else"""
+    if 'Traceback (most recent call last)' in err:
+        raise Violation("{}: the program ends with a traceback: {!r}; bytes={!r}".format(what, err[-400:], data[:300]))
+    if code != 0:
+        if err.strip() == '':
+            raise Violation("{}: exit status {} without a word on the standard error; bytes={!r}".format(what, code, data[:300]))
+        return None, ValueError('exit status {}: {}'.format(code, err.strip()[:160]))
+    s = rd.interpret(out, **rd.STRICT)
+    if not s.ok:
+        raise Violation("{}: exit status 0 but the standard output is not a DIMACS document ({}: {}): {!r}; bytes={!r}".format(
+            what, s.reason, s.detail, out[:200], data[:300]))
+    return (s.n, s.clauses), None
+
+
+def _proc_run(tool, args, env_name, stdin_bytes):
+    from vlib import cli as vcli
+    env = {k: v for k, v in os.environ.items() if k not in ('PYTHONHASHSEED', 'LC_ALL', 'LC_CTYPE', 'LANG', 'PYTHONUTF8',
+                                                            'PYTHONIOENCODING', 'PYTHONCOERCECLOCALE')}
+    env.update({'PYTHONPATH': REPO, 'PYTHONHASHSEED': '0', 'PYTHONWARNINGS': 'ignore'})
+    env.update(PROC_ENVS[env_name])
+    code = "import sys; sys.argv[0]={!r}; from {} import main; main()".format(tool, vcli.TOOLS[tool])
+    p = subprocess.run([sys.executable] + (['-O'] if sys.flags.optimize else []) + ['-c', code] + args,
+                       input=stdin_bytes, stdout=subprocess.PIPE, stderr=subprocess.PIPE, cwd=REPO, env=env, timeout=300)
+    return p.returncode & 0xFF, p.stdout.decode('latin-1'), p.stderr.decode('utf-8', 'replace')
+
+
+def run_reader_bytes(case):
+    import codecs
+    import locale
+    from cnfgen import CNF
+    from cnfgen.utils.parsedimacs import parse_dimacs
+    from vlib import cli as vcli
+    data = case['data'].encode('latin-1')
+    bmode = case['bmode']
+    labels = ['bytes', 'bytes-mode-' + bmode]
+    for o in case.get('origin', []):
+        labels.append('bytes-' + o)
+    tmp = _tmpdir()
+    try:
+        path = os.path.join(tmp, 'input.cnf')
+        with open(path, 'wb') as f:
+            f.write(data)
+        if bmode.startswith('name-'):
+            what = "[{}] file given by name".format(bmode)
+            pref = codecs.lookup(locale.getpreferredencoding(False)).name
+            required = 'utf-8'
+            if bmode == 'name-lib':
+                try:
+                    got, exc = _snapshot(CNF.from_file(path)), None
+                except ValueError as e:
+                    got, exc = None, e
+            else:
+                # argparse opens the file: the encoding is the one of the locale
+                required = pref if pref in ('utf-8', 'ascii') else 'ascii'
+                tool = 'cnfgen' if 'cnfgen' in bmode else 'cnfshuffle'
+                args = ['-q', 'dimacs', path] if tool == 'cnfgen' else SHUFFLE_FIXED + ['-i', path]
+                if bmode.endswith('-main'):
+                    r = vcli.run_main(tool, args)
+                    gc.collect()
+                    if r.exc is not None:
+                        raise Violation("{}: {} escapes from main(): {}; bytes={!r}".format(
+                            what, type(r.exc).__name__, str(r.exc)[:160], data[:300]))
+                    got, exc = _stdout_reading(r.out, r.code, r.err, what, data)
+                else:
+                    got, exc = _tool_formula(tool, args)
+            labels += _judge_by_name(data, got, exc, required, what)
+        elif bmode == 'handle':
+            enc, errors, newline, via = case['h']
+            what = "[handle {}/{} newline={!r} via {}]".format(enc, errors, newline, via)
+            labels += ['bytes-handle-{}-{}'.format(enc, errors), 'bytes-via-' + via]
+            text = _stream_decode(data, enc, errors)
+            with open(path, 'r', encoding=enc, errors=errors, newline=newline) as fh:
+                if via == 'from_file':
+                    try:
+                        got, exc = _snapshot(CNF.from_file(fh)), None
+                    except ValueError as e:
+                        got, exc = None, e
+                elif via == 'parse':
+                    try:
+                        seq = list(parse_dimacs(fh))
+                        if len(seq) < 2 or seq[1] != len(seq) - 2:
+                            raise Violation("{}: parse_dimacs yields m={} followed by {} clauses; bytes={!r}".format(
+                                what, seq[1] if len(seq) > 1 else None, len(seq) - 2, data[:300]))
+                        got, exc = (seq[0], [list(c) for c in seq[2:]]), None
+                    except ValueError as e:
+                        got, exc = None, e
+                elif via == 'stdin-lib':
+                    old = sys.stdin
+                    sys.stdin = fh
+                    try:
+                        got, exc = _snapshot(CNF.from_file()), None
+                    except ValueError as e:
+                        got, exc = None, e
+                    finally:
+                        sys.stdin = old
+                elif via == 'stdin-cnfgen':
+                    got, exc = _tool_formula('cnfgen', ['-q', 'dimacs'], stdin=fh)
+                elif via == 'stdin-shuffle':
+                    got, exc = _tool_formula('cnfshuffle', SHUFFLE_FIXED, stdin=fh)
+                else:
+                    raise KeyError(via)
+            if text is None:
+                labels.append('bytes-handle-cannot-decode')
+                if exc is None:
+                    raise Violation("{}: the handle cannot decode the bytes, yet {} variables and clauses {} are returned; "
+                                    "bytes={!r}".format(what, got[0], got[1][:12], data[:300]))
+                labels.append('bytes-refused')
+            else:
+                labels += _judge_text(text, got, exc, what, data)
+                if text != data.decode('latin-1'):
+                    labels.append('bytes-handle-decoding-matters')
+        elif bmode == 'proc':
+            tool, env_name = case['proc']
+            what = "[process {} {}]".format(tool, env_name)
+            labels.append('bytes-proc-' + env_name)
+            by_name = not env_name.startswith('stdin')
+            if tool == 'cnfgen':
+                args = ['-q', 'dimacs'] + ([path] if by_name else [])
+            else:
+                args = SHUFFLE_FIXED + (['-i', path] if by_name else [])
+            code, out, err = _proc_run(tool, args, env_name, None if by_name else data)
+            got, exc = _stdout_reading(out, code, err, what, data)
+            if by_name:
+                labels += _judge_by_name(data, got, exc, 'utf-8' if env_name == 'utf8' else 'ascii', what)
+            else:
+                text = _stream_decode(data, PROC_ENVS[env_name]['PYTHONIOENCODING'], 'strict')
+                if text is None:
+                    if exc is None:
+                        raise Violation("{}: the standard input cannot be decoded, yet {} variables and clauses {} are "
+                                        "returned; bytes={!r}".format(what, got[0], got[1][:12], data[:300]))
+                    labels.append('bytes-refused')
+                else:
+                    labels += _judge_text(text, got, exc, what, data)
+        else:
+            raise KeyError(bmode)
+    finally:
+        shutil.rmtree(tmp, ignore_errors=True)
+    has_p = b'p' in data
+    ntok = sum(len(ln.split()) for ln in data.split(b'\n') if ln.strip()[:1] not in (b'c', b'p', b''))
+    return Outcome(labels=labels, nontrivial=has_p and ntok >= 1, rejected=exc is not None)
+
+
+# documents the byte cases start from: literals of one to three digits, so that two neighbours glued together are
+# still below the declared number of variables when that number is generous
+BYTE_DOCS = [
+    (9999, [[1, -2], [12, 3, -45], [-7, 120], [], [5]], [b'c sample file', b'c'], b'c 1 2 0', b'c end'),
+    (120, [[1, -2], [12, 3, -45], [-7, 120]], [], None, None),
+    (1000000, [[31, 4, -15], [9, -2, 6]], ['c résumé 日本'.encode('utf-8')], None, 'c fin é'.encode('utf-8')),
+]
+
+
+def _byte_case(data, bmode, origin, h=None, proc=None):
+    case = {'data': data.decode('latin-1'), 'bmode': bmode, 'origin': origin}
+    if h is not None:
+        case['h'] = list(h)
+    if proc is not None:
+        case['proc'] = list(proc)
+    return case
+
+
+def enum_reader_bytes(tier):
+    """every junk x every position on a sample document, each file by name and through handles; whole documents
+    in other encodings; the real programs under two locales.  Quick tier: one document, every file through
+    CNF.from_file(name), every third through one of the tools, two handles each; thorough tier: the full product."""
+    quick = tier != 'thorough'
+    k = 0
+    lib_vias = ['from_file', 'parse', 'stdin-lib', 'from_file', 'parse']
+    for di, (n, clauses, head, mid, tail) in enumerate(BYTE_DOCS[:1] if quick else BYTE_DOCS):
+        for eol in ((b'\n',) if quick else (b'\n', b'\r\n')):
+            base = _byte_base(n, clauses, head, mid, tail, eol)
+            for junk, _, jclass in BYTE_JUNK:
+                for posk in BYTE_POS:
+                    for idx in ((1,) if quick else (0, 1, 2)):
+                        data = _byte_inject(base, [[posk, idx, junk]])
+                        origin = ['junk-' + jclass, 'at-' + posk]
+                        k += 1
+                        if not quick:
+                            modes = NAME_BMODES
+                        else:
+                            modes = ['name-lib'] + [['name-cnfgen'], ['name-shuffle'], [], ['name-cnfgen'], [], [],
+                                                    ['name-cnfgen-main'], [], [], ['name-shuffle'], [], [],
+                                                    ['name-cnfgen'], [], [], ['name-shuffle-main'], [], []][k % 18]
+                        for bm in modes:
+                            yield _byte_case(data, bm, origin)
+                        for j in range(2 if quick else len(HANDLE_CODECS)):
+                            c = HANDLE_CODECS[(k + j * 5) % len(HANDLE_CODECS)]
+                            if quick and (k + j) % 12:
+                                via = lib_vias[(k // 3 + j) % len(lib_vias)]
+                            else:
+                                via = HANDLE_VIAS[(k // 3 + j) % len(HANDLE_VIAS)]
+                            yield _byte_case(data, 'handle', origin, h=c + [HANDLE_NEWLINES[(k + j) % 4], via])
+    # whole documents in another encoding, with and without byte order mark, cut short, padded
+    n, clauses, head, mid, tail = BYTE_DOCS[2]
+    text = _byte_base(n, clauses, head, mid, tail).decode('utf-8')
+    whole = [(enc, text.encode(enc)) for enc in ('utf-8', 'utf-8-sig', 'utf-16', 'utf-16-le', 'utf-16-be', 'utf-32')]
+    ltext = text.replace('\u65e5\u672c', '\xfc')
+    whole += [('latin-1', ltext.encode('latin-1')), ('cp1252', ltext.replace('fin', 'fin \u20ac').encode('cp1252')),
+              ('utf-8-nul-padded', text.encode('utf-8') + b'\x00' * 16),
+              ('utf-8-cut', text.encode('utf-8')[:-2]), ('utf-8-cut2', text.encode('utf-8').rstrip(b'\n')[:-1])]
+    for enc, data in whole:
+        origin = ['whole-' + enc]
+        for bm in NAME_BMODES:
+            yield _byte_case(data, bm, origin)
+        for i, c in enumerate(HANDLE_CODECS):
+            for via in ('from_file', 'parse', 'stdin-cnfgen', 'stdin-shuffle', 'stdin-lib'):
+                if quick and via.startswith('stdin') and (i >= 4 or via != 'stdin-cnfgen'):
+                    continue
+                yield _byte_case(data, 'handle', origin, h=c + [None, via])
+    # the real programs
+    base = _byte_base(*BYTE_DOCS[0])
+    procs = [('cnfgen', 'utf8', 'lit-digits', 'ff'), ('cnfgen', 'ascii', 'lit-digits', 'e9'), ('cnfshuffle', 'utf8', 'lit-sign', '80'),
+             ('cnfshuffle', 'ascii', 'comment-mid', 'e-acute'), ('cnfgen', 'utf8', 'comment-mid', 'e-acute'),
+             ('cnfgen', 'stdin-latin1', 'lit-digits', 'ff'), ('cnfshuffle', 'stdin-latin1', 'comment-mid', 'e9'),
+             ('cnfgen', 'stdin-utf8', 'p-n', '9f')]
+    if not quick:
+        procs = [(t, e, p, j) for t in ('cnfgen', 'cnfshuffle') for e in PROC_ENVS
+                 for p in ('start', 'comment-mid', 'p-n', 'lit-digits', 'lit-sign', 'gap', 'eof-nonl')
+                 for j in ('ff', '80', 'e9', 'trunc3', 'bom8', 'nul', 'e-acute', 'nbsp', 'a0')]
+    for tool, env_name, posk, junk in procs:
+        yield _byte_case(_byte_inject(base, [[posk, 1, junk]]), 'proc',
+                         ['junk-' + BYTE_JUNK_BY_NAME[junk][2], 'at-' + posk], proc=[tool, env_name])
+
+
+_S_BLIT = st.builds(lambda v, s: v * s, st.one_of(st.integers(1, 9), st.integers(10, 99), st.integers(100, 140)), _S_SIGN)
+_S_BCLAUSES = st.lists(st.lists(_S_BLIT, max_size=4), min_size=1, max_size=5)
+_S_BN = st.sampled_from(['tight', 'tight', 99, 9999, 150000, 10 ** 9])
+_S_BCOMMENT = st.sampled_from([b'c', b'c note', b'c p cnf 3 4', b'c 1 2 0', 'c café'.encode('utf-8'),
+                               'c 日本語'.encode('utf-8'), b'c\tx', b'c  two  blanks'])
+_S_BHEAD = st.lists(_S_BCOMMENT, max_size=2)
+_S_BOPT = st.one_of(st.none(), _S_BCOMMENT)
+_S_BEOL = st.sampled_from([b'\n', b'\n', b'\n', b'\r\n'])
+_S_BEDIT = st.tuples(st.sampled_from(BYTE_POS), _S_CAP, st.sampled_from([j[0] for j in BYTE_JUNK])).map(list)
+_S_BEDITS = st.lists(_S_BEDIT, min_size=1, max_size=2)
+_S_BMODE = st.sampled_from(['name-lib'] * 8 + ['name-cnfgen'] * 2 + ['name-shuffle'] * 2 +
+                           ['name-cnfgen-main', 'name-shuffle-main'] + ['handle'] * 14)
+_S_BH = st.tuples(st.sampled_from(HANDLE_CODECS), st.sampled_from(HANDLE_NEWLINES),
+                  st.sampled_from(HANDLE_VIAS[:6] * 3 + HANDLE_VIAS[6:])).map(lambda t: t[0] + [t[1], t[2]])
+
+
+@st.composite
+def _st_reader_bytes(draw):
+    clauses = draw(_S_BCLAUSES)
+    n = draw(_S_BN)
+    top = max([abs(l) for c in clauses for l in c] + [0])
+    n = top if n == 'tight' or n < top else n
+    base = _byte_base(n, clauses, draw(_S_BHEAD), draw(_S_BOPT), draw(_S_BOPT), draw(_S_BEOL))
+    edits = draw(_S_BEDITS)
+    data = _byte_inject(base, edits)
+    origin = sorted({'junk-' + BYTE_JUNK_BY_NAME[e[2]][2] for e in edits} | {'at-' + e[0] for e in edits})
+    bmode = draw(_S_BMODE)
+    return _byte_case(data, bmode, origin, h=draw(_S_BH) if bmode == 'handle' else None)
+
+
 _S_MODE = st.sampled_from(['parse'] * 12 + ['strio'] * 12 + ['file'] * 4 + ['cli-file', 'cli-stdin'])
+_ST_READER_BYTES = _st_reader_bytes()
 
 
 def strat_reader():
-    return st.tuples(rd.st_reader_text(), _S_MODE).map(
+    texts = st.tuples(rd.st_reader_text(), _S_MODE).map(
         lambda p: {'text': p[0][0], 'mode': p[1], 'origin': p[0][1]})
+    return st.one_of(texts, texts, texts, texts, texts, _ST_READER_BYTES)
 
 
 def _corpus():
@@ -1339,6 +1842,7 @@ def enum_reader(tier):
     for t in _corpus():
         for mode in READER_MODES:
             yield {'text': t, 'mode': mode, 'origin': ['corpus']}
+    yield from enum_reader_bytes(tier)
 
 
 # ---------------------------------------------------------------------------
@@ -1472,11 +1976,21 @@ SUBCHECKS = [
                                                        'parity', 'linear')]),
     SubCheck('reader', run_reader, strategy=strat_reader, enumerate_cases=enum_reader,
              quick=20000, thorough=600000,
-             rule="grammar of DIMACS-like documents (n<=6, <=6 clauses, comments anywhere, blank lines, several clauses per line, clauses spanning lines, tabs, CRLF) composed with 0..2 of 17 mutators, raw st.text(), text over the alphabet 'pcnf 0123-+_\\n\\t\\r'; every text through parse_dimacs, CNF.from_file(StringIO), CNF.from_file(filename), cnfgen dimacs <file>|<stdin>; plus the texts of tests/test_dimacsparser.py and 41 corner texts x 5 modes. Oracle: reference interpretation (accept => identical formula; reject => ValueError; gray => ValueError or a permissive reading). Non-trivial: problem line and >=1 clause token",
+             rule="grammar of DIMACS-like documents (n<=6, <=6 clauses, comments anywhere, blank lines, several clauses per line, clauses spanning lines, tabs, CRLF) composed with 0..2 of 17 mutators, raw st.text(), text over the alphabet 'pcnf 0123-+_\\n\\t\\r'; every text through parse_dimacs, CNF.from_file(StringIO), CNF.from_file(filename), cnfgen dimacs <file>|<stdin>; plus the texts of tests/test_dimacsparser.py and 41 corner texts x 5 modes. Oracle: reference interpretation (accept => identical formula; reject => ValueError; gray => ValueError or a permissive reading). Non-trivial: problem line and >=1 clause token. "
+                  "BYTES (1/6 of the generated cases and an enumerated grid, cases with 'data'): FILES THAT ARE NOT CLEAN UTF-8 TEXT - a well formed document (1..5 clauses of width 0..4 over literals of 1..3 digits, declared variables = the largest one or 99 / 9999 / 150000 / 10^9 so that two glued neighbours stay in range, 0..2 comment lines in front, optional comment between and after the clauses, ASCII or UTF-8 comments, LF or CRLF) into which 1..2 pieces out of 36 are put: bytes that are not UTF-8 (0xff 0xfe 0x80 0x9f 0xbf 0xa0 0x85 0xb2 0xc0 0xc3, Latin-1 accented letters, sequences cut after 1, 2, 3 of their bytes, an encoded surrogate, overlong forms, a 5-byte form, a code beyond U+10FFFF), byte order marks (UTF-8, UTF-16 LE/BE), NUL bytes, and valid but odd UTF-8 (e-acute, NBSP, NEL, zero width space, fullwidth and Arabic-Indic digits, U+2028, an emoji, DEL, ESC) at 22 kinds of position: start of the file, inside / right after the 'c' of / in front of / at the end of a comment line, in the problem line (in front, inside 'cnf', between the digits of n, instead of the blank between n and m, in m, at the end), in a clause line (between two digits of a literal, between sign and digits, glued in front of / behind a literal, instead of the blank between two literals, as a token of its own, in front of / behind the closing 0, instead of the line end), at the end of the file with and without the final newline; whole documents encoded in UTF-8, UTF-8 with BOM, UTF-16 (BOM, LE, BE), UTF-32, Latin-1, cp1252, padded with NULs, cut inside the last multi-byte character. Entry points: BY NAME CNF.from_file(name), cli(['cnfgen','-q','dimacs',name]), cnfshuffle's cli(['-q','-p','-v','-c','-i',name]) (nothing is shuffled), the main() of both tools (exit status, stdout, stderr), and the real programs in a process of their own under a UTF-8 and an ASCII locale; HANDLES the caller opened with 14 encoding/error-handler pairs (utf-8 strict|surrogateescape|ignore|replace|backslashreplace, latin-1 strict|ignore, ascii strict|surrogateescape|ignore|replace, utf-8-sig, cp1252, utf-16) x newline None|''|'\\n', given to CNF.from_file(handle), parse_dimacs(handle) or standing in for sys.stdin of CNF.from_file(), cnfgen dimacs, cnfshuffle; the real programs with the bytes on stdin under PYTHONIOENCODING latin-1 / utf-8. Enumerated: 36 pieces x 22 positions on one document (thorough: 3 documents x LF/CRLF x 3 places per kind x all entry points x all 14 handles), 11 whole-document encodings x all entry points x 14 handles, 8 (thorough 504) runs of the real programs. "
+                  "Oracle BY NAME: the reader chooses the decoding; it either refuses the file (ValueError / CLIError / non-zero exit with a message and no traceback) or returns a reading that the reference interpretation allows for the text which a STRICT decoder of utf-8, utf-8-sig, latin-1, cp1252, ascii, the locale's encoding (utf-16/32 when the file starts with their BOM) makes of the bytes - so bytes are never dropped with the neighbouring digits glued together, no clause and no variable count is made up; a file that is valid DIMACS text in the encoding the entry point uses (UTF-8 for the library, the locale's for the tools) may not be refused. Oracle HANDLE: the caller chose the decoding; the reference interpretation of the text the codec's incremental decoder yields (accept => identical formula, reject => ValueError, gray => either); when that decoder raises, the reader must refuse with ValueError/CLIError",
              required_labels=['accepted', 'rejected-range', 'rejected-count', 'rejected-open', 'rejected-syntax', 'gray',
                               'gray-returned', 'mode-parse', 'mode-strio', 'mode-file', 'mode-cli-file', 'mode-cli-stdin',
                               'gen-grammar', 'gen-raw', 'gen-alphabet', 'clauses>=2', 'accepted-empty-clause'] +
-                             ['gen-' + m for m in rd.MUTATORS]),
+                             ['gen-' + m for m in rd.MUTATORS] +
+                             ['bytes', 'bytes-drop-sensitive', 'bytes-invalid-but-harmless', 'bytes-utf8-valid', 'bytes-utf8-invalid',
+                              'bytes-returned', 'bytes-refused', 'bytes-text-accepted', 'bytes-text-rejected', 'bytes-text-gray',
+                              'bytes-handle-cannot-decode', 'bytes-handle-decoding-matters', 'bytes-proc-utf8', 'bytes-proc-ascii',
+                              'bytes-proc-stdin-latin1', 'bytes-whole-utf-16', 'bytes-whole-latin-1', 'bytes-whole-utf-8-cut'] +
+                             ['bytes-mode-' + m for m in NAME_BMODES + ['handle', 'proc']] +
+                             ['bytes-junk-' + c for c in ('invalid', 'latin1', 'bom', 'nul', 'valid')] +
+                             ['bytes-at-' + p for p in BYTE_POS] + ['bytes-via-' + v for v in sorted(set(HANDLE_VIAS))] +
+                             ['bytes-handle-{}-{}'.format(*c) for c in HANDLE_CODECS]),
     SubCheck('fuzz', run_fuzz, strategy=None, enumerate_cases=enum_fuzz, quick=0, thorough=0, opt_pass=False,
              rule="thorough: 16 atheris (libFuzzer) campaigns x 320000 runs on parse_dimacs / from_dimacs_file, 8 from an empty corpus and 8 seeded with the texts of tests/test_dimacsparser.py, fresh corpus directory under out/fuzz/C06, dictionary of DIMACS tokens, max_len 160, the reference-interpretation oracle evaluated inside the fuzz target; both tiers: the test-suite texts themselves",
              required_labels=['accepted', 'rejected-syntax']),
